@@ -786,6 +786,89 @@ fn run_update_sweep(focus: &'static str, seed: u64, index: u64) -> CaseOut {
     CaseOut { findings, counts, signature, nontrivial: true, sample }
 }
 
+/// Directed reproduction of "the sweeper's evict hook removes the store entry by key": the sweeper is stretched right after it
+/// removed the expired id from the weight map; meanwhile the key loses its TTL in place (so the worker's delete does not touch
+/// the locked TTL shard), is deleted and put again; when the sweeper resumes its hook must not remove the *new* entry.
+fn run_sweep_reput(focus: &'static str, seed: u64, index: u64) -> CaseOut {
+    let mut rng = rt::rng_for(seed, index, 0x5EE9);
+    let shards = *rng.pick(&[2usize, 4]);
+    let sutcfg = SutCfg { counters: 100, capacity: 16, max_weight: 100_000, shards, cmd_buf: 8, pool: 1, buf: 2, tick: Duration::from_millis(1),
+        weight_mode: WeightMode::Custom, hash_mode: HashMode::Default, start_ns: rt::START_NS };
+    let change_ttl_instead = index % 2 == 1;
+    let case = J::obj().with("engine", J::s("conc")).with("scenario", J::s("sweep-reput")).with("focus", J::s(focus)).with("seed", J::Int(seed as i128))
+        .with("index", J::Int(index as i128)).with("upsert_changes_ttl_instead_of_removing_it", J::Bool(change_ttl_instead)).with("config", sutcfg.to_json());
+    let mut counts = Counts::default();
+    let mut findings = Vec::new();
+    prep(1, 0, 0, 0, false);
+    let panic_mark = rt::panic_count();
+    let sut = Sut::new(sutcfg);
+    let marks = sut.marks;
+    let key = rng.range(1, 3);
+    let mut client = Client::new(1);
+    let first = client.token(key);
+    client.write(&sut.cache, WriteOp::PutWTtl { key, value: first, weight: 30, ttl: Duration::from_secs(1) });
+    client.settle_all(&marks);
+    // stretch the sweeper between "id removed from the weight map" and "total reduced / store entry removed"
+    sched().forced_hits.store(0, Ordering::SeqCst);
+    sched().force_delay(Site::WeightDeleteAfterRemove, 12_000, 1);
+    sut.advance((1 + shards as u64) * NS); // a later second that maps to the shard of the expiry
+    let stalled = rt::wait_until("the sweeper to reach the stretched site", || sched().forced_hits.load(Ordering::SeqCst) >= 1).is_ok();
+    let mut window = false;
+    let mut second = 0;
+    let mut upserter_log: Vec<OpRec> = Vec::new();
+    if stalled {
+        // an upsert that detaches the stored entry from the TTL shard the sweeper holds; it blocks on that shard afterwards
+        let cache = sut.cache.clone();
+        let upserter = thread::spawn(move || {
+            let mut other = Client::new(2);
+            let value = other.token(key);
+            let op = if change_ttl_instead { WriteOp::Upsert { key, value: Some(value), weight: Some(30), ttl: Some(Duration::from_secs(1000 + 1)), remove_ttl: false } }
+                else { WriteOp::Upsert { key, value: Some(value), weight: Some(30), ttl: None, remove_ttl: true } };
+            other.write(&cache, op);
+            other.settle_all(&marks);
+            other
+        });
+        thread::sleep(Duration::from_micros(1500));
+        client.write(&sut.cache, WriteOp::Delete { key });
+        client.settle_all(&marks);
+        second = client.token(key);
+        client.write(&sut.cache, WriteOp::PutW { key, value: second, weight: 30 });
+        client.settle_all(&marks);
+        window = sched().forced_left.load(Ordering::SeqCst) == 0;
+        if let Ok(other) = upserter.join() { upserter_log = other.log; }
+    }
+    sched().clear_forced();
+    if window { counts.inc("reputs_completed_while_the_sweeper_was_stretched"); } else { counts.inc("window_not_entered"); }
+    let mut logs = client.log.clone();
+    logs.extend(upserter_log);
+    logs.sort_by_key(|r| r.call);
+    let witness = |recs: &[&OpRec]| witness_of(&case, recs);
+    let all_logs = logs.clone();
+    let all: Vec<&OpRec> = all_logs.iter().collect();
+    check_ack_outcomes(&logs, false, &mut counts, &mut findings, &witness, panic_mark);
+    match sut.quiesce().and_then(|_| sut.settle_fresh()) {
+        Err(waited) => push_stuck(&mut findings, "quiescence after a sweep/re-put race", waited, &case),
+        Ok(()) => {
+            let put_accepted = matches!(&client.log.last().map(|r| &r.outcome), Some(Outcome::Write { status: Some(Waited::Ready(CommandStatus::Accepted)), .. }));
+            let ok = check_quiescent_accounting(&sut, "sweep-reput", &mut counts, &mut findings, witness(&all));
+            if stalled && put_accepted {
+                counts.inc("reput_presence_checks");
+                let got = sut.cache.get(&key);
+                if got != Some(second) && ok {
+                    findings.push(Finding { props: vec!["C03", "C10"], signature: "C03/accepted-put-lost/sweep-reput".into(),
+                        detail: format!("key {} was put again (accepted, no TTL, no later delete) while the sweeper was evicting its expired earlier incarnation; it reads {:?}", key, got), witness: witness(&all), inconclusive: false });
+                }
+            }
+        }
+    }
+    weight_bound_findings(&mut findings, &case, "sweep-reput");
+    let signature = fnv_step(fnv_step(0x5EE9, index % 8), key << 4 | shards as u64);
+    let sample = case.clone().with("operations", J::Arr(logs.iter().take(10).map(|r| r.to_json()).collect()));
+    if let Err(waited) = sut.finish() { if findings.is_empty() { push_stuck(&mut findings, "shutdown after a sweep/re-put race", waited, &case); } }
+    counts.inc("cases");
+    CaseOut { findings, counts, signature, nontrivial: window, sample }
+}
+
 // ------------------------------------------------------------------------------------------------ scenario: a client held in the middle of its call (C04 / C07 / C08 / C05 directed)
 
 const CLIENT_SITES: [Site; 6] = [Site::SendAfter, Site::SendBefore, Site::DeleteAfterMark, Site::PutAfterPresenceCheck, Site::UpsertAfterStoreUpdate, Site::UpsertBeforeSend];
@@ -979,6 +1062,7 @@ pub fn run(args: &Args) -> Shard {
             "same-key" => run_same_key(focus, seed, index),
             "update-sweep" => run_update_sweep(focus, seed, index),
             "held-client" => run_held_client(focus, seed, index),
+            "sweep-reput" => run_sweep_reput(focus, seed, index),
             "burst" => crate::conc2::run_burst(focus, seed, index),
             "shutdown" => crate::conc2::run_shutdown(focus, seed, index),
             "stall" => crate::conc2::run_stall(focus, seed, index),
